@@ -42,6 +42,11 @@ def cases(tier, rng):
             if thorough or c == "tcp":
                 line = "c17 %s 100000 %s other-open" % (c, side)
                 cs.append({"line": line, "key": line, "model": False, "tags": {"carrier": c, "n": 100000, "side": side, "variant": "other-open"}})
+    # the client's standard-stream listener: either end closes after a transfer both ways
+    for c in (["tcp", "ws", "kcp"] if thorough else ["tcp"]):
+        for side in ("app", "target"):
+            line = "c01io %s 20000 %s" % (c, side)
+            cs.append({"line": line, "key": line, "model": False, "tags": {"carrier": c + "+stdin-listener", "n": 20000, "side": side, "variant": "io"}})
     # the DNS tunnel's two ends alone (real client connection with its poller, real listener, lossless path): the closing end writes and
     # closes at once; the other end starts reading only after a while (what was acknowledged to the writer must still be readable, then
     # end-of-stream; a server-side close must reach a client that is only polling)
@@ -58,6 +63,13 @@ def oracle(case, impl):
     p = impl.split()
     if not p or p[0] in ("panic", "died", "timeout", "harness-error", "setup", "connect"):
         return [("crash;carrier=" + t["carrier"], "scenario failed to run: " + impl[:150])]
+    if t.get("variant") == "io":
+        out = []
+        if p[:3] != ["up", str(t["n"]), "-1"] or p[3:6] != ["down", str(t["n"]), "-1"]:
+            out.append(("data-lost-on-close;carrier=%s;closer=%s" % (t["carrier"], t["side"]), "the transfer before the close was not complete: " + impl))
+        if p[-2:] != ["eof", "1"]:
+            out.append(("no-eof;carrier=%s;closer=%s" % (t["carrier"], t["side"]), "the other end did not see end-of-stream within the bound (%s)" % case["line"]))
+        return out
     f = dict(zip(p[0::2], p[1::2]))
     out = []
     if int(f["got"]) != t["n"] or int(f["diff"]) != -1:
